@@ -499,13 +499,7 @@ func (e *IntEnv) fromValidator(g Guard, v ssa.Value, depth int) (Itv, bool) {
 		if !ok || !isNil || !isErrorType(x.Type()) {
 			return Itv{}, false
 		}
-		switch y := x.(type) {
-		case *ssa.Call:
-			call = y
-		case *ssa.Extract:
-			call, _ = y.Tuple.(*ssa.Call)
-			resIdx = y.Index
-		}
+		call, resIdx = callOfValue(x)
 		outcome = 3
 	}
 	if call == nil || call.Call.IsInvoke() {
